@@ -24,22 +24,118 @@ Notation sstate := (sstate CS).
 Notation sstep := (sstep CS cs_begin compress_chunk).
 Notation srun := (srun CS cs_begin compress_chunk).
 Notation astep := (astep CS cs_begin compress_chunk).
+Notation gstate := (gstate CS).
+Notation g_flush := (@g_flush CS).
+Notation g_compress := (g_compress CS compress_chunk).
+Notation g_load := (g_load CS compress_chunk).
+Notation g_iter := (g_iter CS compress_chunk).
+Notation g_loop := (g_loop CS compress_chunk).
 
-(* the check (current code) accepts the caller's next call *)
-Definition SOK (s : sstate) : Prop := check_refuses CheckNow s = false.
+(* ---------- a call that does not defer the frame start leaves nothing held unless it stops in the load stage ---------- *)
+Definition res_hd (r : gres CS) : Prop :=
+  match r with
+  | GCont g' => k_held (g_k g') = []
+  | GStop g' => k_held (g_k g') = [] \/ k_stage (g_k g') = KLoad
+  | GErr _ => True
+  end.
+
+Lemma g_flush_hd (g : gstate) : k_held (g_k g) = [] -> res_hd (g_flush g).
+Proof.
+  intros Hh. unfold CStreamModel.g_flush. cbv zeta.
+  destruct (negb _); [cbn [res_hd]; ksimp; auto|].
+  destruct (k_frameEnded (g_k g)); cbn [res_hd]; ksimp; auto.
+Qed.
+
+Lemma g_compress_hd P dir (g : gstate) : k_held (g_k g) = [] -> res_hd (g_compress P dir g).
+Proof.
+  intros Hh. unfold CStreamModel.g_compress. cbv zeta.
+  destruct (compress_chunk _ _ _) as [cs' cout].
+  destruct (_ <? lenN cout); [exact I|].
+  match goal with |- context [if fits_bound _ _ || _ then (if ?LB then GStop (g_mk (k_session_reset ?K) _ _ _ _) else _) else _] =>
+    set (k2 := K); set (lb := LB) end.
+  assert (Hk2 : k_held k2 = []).
+  { unfold k2. destruct (negb (kp_stableIn P)); [destruct (_ <? _)|]; ksimp; exact Hh. }
+  clearbody k2 lb.
+  destruct (fits_bound _ _ || kp_stableOut P).
+  - destruct lb; cbn [res_hd]; ksimp; auto.
+  - apply g_flush_hd. ksimp. exact Hk2.
+Qed.
+
+Lemma g_load_hd P dir (g : gstate) : k_held (g_k g) = [] -> k_stage (g_k g) = KLoad -> res_hd (g_load P dir g).
+Proof.
+  intros Hh Hst. unfold CStreamModel.g_load. cbv zeta.
+  destruct (_ && (_ && (k_inBuffPos (g_k g) =? 0))).
+  - destruct (compress_chunk _ _ _) as [cs' cout]. destruct (_ <? lenN cout); [exact I|].
+    cbn [res_hd]. ksimp. auto.
+  - destruct (negb (kp_stableIn P)).
+    + match goal with |- context [g_compress P dir ?G1] => set (g1 := G1) end.
+      assert (H1 : k_held (g_k g1) = []) by (unfold g1; ksimp; exact Hh).
+      assert (HS : res_hd (GStop g1)) by (cbn [res_hd]; auto).
+      assert (HC : res_hd (g_compress P dir g1)) by (apply g_compress_hd; exact H1).
+      clearbody g1. destruct dir; [destruct (_ <? _)|destruct (_ =? _)|]; assumption.
+    + assert (HC : res_hd (g_compress P dir g)) by (apply g_compress_hd; exact Hh).
+      destruct dir; [destruct (_ <? _)|destruct (_ =? _)|]; try assumption; cbn [res_hd]; ksimp; auto.
+Qed.
+
+Lemma g_loop_hd P dir : forall fuel (g : gstate), k_held (g_k g) = [] -> res_hd (g_loop fuel P dir g).
+Proof.
+  induction fuel as [|f IH]; intros g Hh; [exact I|].
+  cbn [CStreamModel.g_loop].
+  assert (H : res_hd (g_iter P dir g)).
+  { unfold CStreamModel.g_iter. destruct (k_stage (g_k g)) eqn:Est; [exact I|apply g_load_hd; assumption|apply g_flush_hd; exact Hh]. }
+  destruct (g_iter P dir g) as [g'|g'|e]; [|exact H|exact I].
+  cbn [res_hd] in H. apply IH. exact H.
+Qed.
+
+Lemma kstep_deferred P fc (k : kstate) inp cap dir :
+  deferred P k inp dir = true ->
+  ko_ret (kstep P fc k inp cap dir) = Some (hdr_min (kp_magicless P)) /\
+  ko_k (kstep P fc k inp cap dir) = k_set_held k (k_held k ++ inp) /\
+  ko_consumed (kstep P fc k inp cap dir) = Z.of_N (lenN inp).
+Proof.
+  unfold deferred, CStreamModel.kstep. cbv zeta. intros E. rewrite E. cbn. auto.
+Qed.
+
+Lemma kstep_held_or_load P fc (k : kstate) inp cap dir r :
+  deferred P k inp dir = false -> ko_ret (kstep P fc k inp cap dir) = Some r ->
+  k_held (ko_k (kstep P fc k inp cap dir)) = [] \/ k_stage (ko_k (kstep P fc k inp cap dir)) = KLoad.
+Proof.
+  unfold deferred, CStreamModel.kstep. cbv zeta. intros E. rewrite E.
+  set (k0 := match k_stage k with KInit => _ | _ => k end).
+  destruct (kp_stableOut P && negb (k_expectOut k0 =? cap)); [discriminate|].
+  match goal with |- context [CStreamModel.g_loop CS compress_chunk ?f P dir ?g] =>
+    pose proof (g_loop_hd P dir f g) as HL; destruct (CStreamModel.g_loop CS compress_chunk f P dir g) as [g'|g'|e] end; try discriminate.
+  cbn [ko_ret ko_k]. intros _. cbn [res_hd] in HL. specialize (HL eq_refl).
+  destruct HL as [HL|HL]; [left|right]; ksimp; exact HL.
+Qed.
+
+(* none of the three controls (current code) would refuse the caller's next call or the next wrapper call *)
+Definition SOK (s : sstate) : Prop := refuses_any CheckNow s = false.
 
 Lemma SOK_new cs : SOK (s_new cs).
 Proof. reflexivity. Qed.
 
-(* SOK spelled out *)
+(* SOK spelled out: in a frame in progress with a real stable buffer recorded, the recorded position is the caller's; while
+   input is deferred, a real buffer is recorded, the caller stands at its end, and so does the recorded position *)
 Lemma SOK_intro (s : sstate) :
-  (is_init (a_k (s_a s)) = false -> k_appliedSI (a_k (s_a s)) = true -> a_null (s_a s) = false -> s_epos s = a_pos (s_a s)) -> SOK s.
+  (is_init (a_k (s_a s)) = false -> k_appliedSI (a_k (s_a s)) = true -> a_null (s_a s) = false -> s_epos s = a_pos (s_a s)) ->
+  (is_init (a_k (s_a s)) = true -> k_held (a_k (s_a s)) <> [] ->
+     a_null (s_a s) = false /\ a_pos (s_a s) = a_size (s_a s) /\ s_epos s = a_size (s_a s)) -> SOK s.
 Proof.
-  intros H. unfold SOK, check_refuses. cbv zeta.
-  destruct (is_init (a_k (s_a s))) eqn:Ei; [reflexivity|]. cbn [negb andb].
-  destruct (k_appliedSI (a_k (s_a s))) eqn:Ea; [|reflexivity]. cbn [andb].
-  destruct (a_null (s_a s)) eqn:En; [reflexivity|].
-  rewrite (H eq_refl eq_refl eq_refl), N.eqb_refl. reflexivity.
+  intros H1 H2. unfold SOK, refuses_any, check_refuses, init_refuses_call, init_refuses_wrapper. cbv zeta.
+  destruct (is_init (a_k (s_a s))) eqn:Ei; cbn [negb andb orb].
+  - destruct (lenN (k_held (a_k (s_a s))) =? 0) eqn:Eh; [reflexivity|]. cbn [negb andb].
+    assert (Hne : k_held (a_k (s_a s)) <> []) by (intros E; rewrite E in Eh; discriminate).
+    destruct (H2 eq_refl Hne) as (Hn & Hp & He). rewrite Hn, Hp, He, !N.eqb_refl. reflexivity.
+  - rewrite !orb_false_r. destruct (k_appliedSI (a_k (s_a s))) eqn:Ea; [|reflexivity]. cbn [andb].
+    destruct (a_null (s_a s)) eqn:En; [reflexivity|].
+    rewrite (H1 eq_refl eq_refl eq_refl), N.eqb_refl. reflexivity.
+Qed.
+
+Lemma SOK_parts (s : sstate) : SOK s ->
+  check_refuses CheckNow s = false /\ init_refuses_call s = false /\ init_refuses_wrapper s = false.
+Proof.
+  unfold SOK, refuses_any. intros H. apply orb_false_elim in H. destruct H as [H1 H]. apply orb_false_elim in H. tauto.
 Qed.
 
 Lemma a_call_null P fc X (a : astate CS) n cap dir r :
@@ -81,6 +177,27 @@ Proof.
   - destruct (N.ltb_spec (Z.to_N (Z.of_N (a_pos (s_a s)) + ko_consumed ko)) (a_pos (s_a s))); [lia|reflexivity].
 Qed.
 
+(* the state a successful ZSTD_compressStream2 call leaves, as far as the controls are concerned *)
+Lemma call_state_ok P fc X (s : sstate) n cap dir r :
+  ao_ret (a_call CS cs_begin compress_chunk P fc X (s_a s) n cap dir) = Some r ->
+  let a' := ao_a (a_call CS cs_begin compress_chunk P fc X (s_a s) n cap dir) in
+  let recorded := orb (deferred P (a_k (s_a s)) (tk n (dr (a_pos (s_a s)) X)) dir) (k_appliedSI (a_k a')) in
+  SOK {| s_a := a'; s_epos := if recorded then a_pos a' else s_epos s |}.
+Proof.
+  intros Er. cbv zeta. pose proof (a_call_null P fc X (s_a s) n cap dir r Er) as Hn.
+  apply SOK_intro; cbn [s_a s_epos].
+  - intros _ Ha _. rewrite Ha, orb_true_r. reflexivity.
+  - intros Hi Hh. rewrite Hn. split; [reflexivity|].
+    revert Er Hi Hh. unfold a_call. cbv zeta. set (inp := tk n (dr (a_pos (s_a s)) X)).
+    destruct (deferred P (a_k (s_a s)) inp dir) eqn:Ed.
+    + destruct (kstep_deferred P fc (a_k (s_a s)) inp cap dir Ed) as (E1 & E2 & E3).
+      rewrite E1. cbn [ao_ret ao_a a_k a_pos a_size]. rewrite E3. intros _ _ _. cbn [orb]. split; lia.
+    + destruct (ko_ret (kstep P fc (a_k (s_a s)) inp cap dir)) as [r'|] eqn:Ek; [|rewrite a_kfail_ret; discriminate].
+      cbn [ao_ret ao_a a_k]. intros _ Hi Hh. exfalso.
+      destruct (kstep_held_or_load P fc (a_k (s_a s)) inp cap dir r' Ed Ek) as [E|E]; [contradiction|].
+      unfold is_init in Hi. rewrite E in Hi. discriminate.
+Qed.
+
 (* one step keeps SOK (the AInv of the API state gives the bound "a flush consumes nothing new") *)
 Lemma SOK_step P X (s : sstate) em dones cs0 chunks op r :
   AInv P X (s_a s) em dones cs0 chunks -> 1 <= fc_maxBlock (aop_fc op) ->
@@ -90,38 +207,56 @@ Lemma SOK_step P X (s : sstate) em dones cs0 chunks op r :
 Proof.
   intros A Hmb. destruct op as [n cap dir fc|n cap fc|cap fc|cap ck fc]; cbn [C10Stab.sstep aop_fc] in *.
   - (* ZSTD_compressStream2 *)
-    unfold s_call_gen. cbv zeta. destruct (check_refuses CheckNow s); [discriminate|]. intros _.
+    unfold s_call_gen. cbv zeta. destruct (check_refuses CheckNow s || init_refuses_call s); [discriminate|]. intros _.
     destruct (ao_ret (a_call CS cs_begin compress_chunk P fc X (s_a s) n cap dir)) as [r'|] eqn:Er; cbn [so_o so_s]; [|congruence].
-    intros _. apply SOK_intro. cbn [s_a s_epos]. intros _ Ha _. rewrite Ha, orb_true_r. reflexivity.
+    intros _. exact (call_state_ok P fc X s n cap dir r' Er).
   - (* ZSTD_compressStream *)
-    unfold s_call_gen. cbv zeta. destruct (check_refuses CheckNow s); [discriminate|]. intros _.
+    unfold s_call_gen. cbv zeta. destruct (check_refuses CheckNow s || init_refuses_call s); [discriminate|]. intros _.
     destruct (ao_ret (a_stream CS cs_begin compress_chunk P fc X (s_a s) n cap)) as [r'|] eqn:Er; cbn [so_o so_s]; [|congruence].
-    intros _. apply SOK_intro. cbn [s_a s_epos]. intros _ Ha _. rewrite Ha, orb_true_r. reflexivity.
+    intros _. destruct (a_stream_facts P fc X (s_a s) n cap r' Er) as [Ea (r2 & Er2)]. rewrite Ea.
+    exact (call_state_ok P fc X s n cap DirContinue r2 Er2).
   - (* ZSTD_flushStream *)
-    unfold s_flushStream. cbv zeta.
+    unfold s_flushStream. cbv zeta. destruct (init_refuses_wrapper s); [discriminate|].
     destruct (ao_ret (a_flushStream CS cs_begin compress_chunk P fc X (s_a s) cap)) as [r'|] eqn:Er; cbn [so_o so_s so_refused]; [|congruence].
     intros _ _. revert Er. unfold a_flushStream. cbv zeta. destruct (wview (a_k (s_a s))) eqn:Hv.
     + destruct (ko_ret (kstep P fc (a_k (s_a s)) [] cap DirFlush)) as [r2|] eqn:Ek; [|rewrite a_kfail_ret; discriminate].
-      cbn [ao_ret ao_a]. intros _. apply SOK_intro. cbn [s_a s_epos a_k a_pos a_null].
+      cbn [ao_ret ao_a]. intros _.
       destruct (keep_caller_mode (k_held (a_k (s_a s))) (kstep P fc (a_k (s_a s)) [] cap DirFlush)) as [Em1 Em2].
-      rewrite Em1, Em2. intros Hi Ha Hn. rewrite (wrapper_epos_ok s _ Hi Ha Hn).
-      assert (Ek0 : ko_ret (kstep P fc (a_k (s_a s)) (tk 0 (dr (a_pos (s_a s)) X)) cap DirFlush) = Some r2) by (rewrite tk_0; exact Ek).
-      destruct (AInv_kstep CS cs_begin compress_chunk P X (s_a s) em dones cs0 chunks fc 0 cap DirFlush r2 A Hmb Ek0) as (_ & Hb & _).
-      rewrite tk_0 in Hb. rewrite lenN_nil in Hb. pose proof (ai_le _ _ _ _ _ _ _ _ _ _ A) as Hle.
-      destruct (Z.ltb_spec (ko_consumed (kstep P fc (a_k (s_a s)) [] cap DirFlush)) 0); [reflexivity|lia].
+      apply SOK_intro; cbn [s_a s_epos a_k a_pos a_null]; rewrite Em1.
+      * rewrite Em2. intros Hi Ha Hn. rewrite (wrapper_epos_ok s _ Hi Ha Hn).
+        assert (Ek0 : ko_ret (kstep P fc (a_k (s_a s)) (tk 0 (dr (a_pos (s_a s)) X)) cap DirFlush) = Some r2) by (rewrite tk_0; exact Ek).
+        destruct (AInv_kstep CS cs_begin compress_chunk P X (s_a s) em dones cs0 chunks fc 0 cap DirFlush r2 A Hmb Ek0) as (_ & Hb & _).
+        rewrite tk_0 in Hb. rewrite lenN_nil in Hb. pose proof (ai_le _ _ _ _ _ _ _ _ _ _ A) as Hle.
+        destruct (Z.ltb_spec (ko_consumed (kstep P fc (a_k (s_a s)) [] cap DirFlush)) 0); [reflexivity|lia].
+      * (* a wrapper never leaves input deferred at the init stage *)
+        intros Hi Hh. exfalso. apply Hh.
+        assert (Ekc : keep_caller (k_held (a_k (s_a s))) (kstep P fc (a_k (s_a s)) [] cap DirFlush) = ko_k (kstep P fc (a_k (s_a s)) [] cap DirFlush))
+          by (unfold keep_caller; cbv zeta; rewrite Hi; reflexivity).
+        rewrite Ekc. destruct (kstep_facts CS cs_begin compress_chunk P fc (a_k (s_a s)) [] cap DirFlush r2 Ek) as (_ & _ & F). apply F. discriminate.
     + destruct (ko_ret (kstep P fc (k_set_held (a_k (s_a s)) []) [] cap DirFlush)) as [r2|] eqn:Ek; [|rewrite a_kfail_ret; discriminate].
-      cbn [ao_ret ao_a]. intros _. apply SOK_intro. cbn [s_a a_null]. discriminate.
+      cbn [ao_ret ao_a]. intros _. apply SOK_intro; cbn [s_a a_null a_k].
+      * discriminate.
+      * intros _ Hh. exfalso. apply Hh.
+        destruct (kstep_facts CS cs_begin compress_chunk P fc (k_set_held (a_k (s_a s)) []) [] cap DirFlush r2 Ek) as (_ & _ & F). apply F. discriminate.
   - (* ZSTD_endStream *)
-    unfold s_endStream. cbv zeta.
+    unfold s_endStream. cbv zeta. destruct (init_refuses_wrapper s); [discriminate|].
     destruct (ao_ret (a_endStream CS cs_begin compress_chunk P fc X (s_a s) cap ck)) as [r'|] eqn:Er; cbn [so_o so_s so_refused]; [|congruence].
     intros _ _. revert Er. unfold a_endStream. cbv zeta. destruct (wview (a_k (s_a s))) eqn:Hv.
     + set (inp := if a_null (s_a s) then [] else tk (a_size (s_a s) - a_pos (s_a s)) (dr (a_pos (s_a s)) X)).
       destruct (ko_ret (kstep P fc (a_k (s_a s)) inp cap DirEnd)) as [r2|] eqn:Ek; [|rewrite a_kfail_ret; discriminate].
-      cbn [ao_ret ao_a]. intros _. apply SOK_intro. cbn [s_a s_epos a_k a_pos a_null].
+      cbn [ao_ret ao_a]. intros _.
       destruct (keep_caller_mode (k_held (a_k (s_a s))) (kstep P fc (a_k (s_a s)) inp cap DirEnd)) as [Em1 Em2].
-      rewrite Em1, Em2. intros Hi Ha Hn. rewrite (wrapper_epos_ok s _ Hi Ha Hn). reflexivity.
+      apply SOK_intro; cbn [s_a s_epos a_k a_pos a_null]; rewrite Em1.
+      * rewrite Em2. intros Hi Ha Hn. rewrite (wrapper_epos_ok s _ Hi Ha Hn). reflexivity.
+      * intros Hi Hh. exfalso. apply Hh.
+        assert (Ekc : keep_caller (k_held (a_k (s_a s))) (kstep P fc (a_k (s_a s)) inp cap DirEnd) = ko_k (kstep P fc (a_k (s_a s)) inp cap DirEnd))
+          by (unfold keep_caller; cbv zeta; rewrite Hi; reflexivity).
+        rewrite Ekc. destruct (kstep_facts CS cs_begin compress_chunk P fc (a_k (s_a s)) inp cap DirEnd r2 Ek) as (_ & _ & F). apply F. discriminate.
     + destruct (ko_ret (kstep P fc (k_set_held (a_k (s_a s)) []) [] cap DirEnd)) as [r2|] eqn:Ek; [|rewrite a_kfail_ret; discriminate].
-      cbn [ao_ret ao_a]. intros _. apply SOK_intro. cbn [s_a a_null]. discriminate.
+      cbn [ao_ret ao_a]. intros _. apply SOK_intro; cbn [s_a a_null a_k].
+      * discriminate.
+      * intros _ Hh. exfalso. apply Hh.
+        destruct (kstep_facts CS cs_begin compress_chunk P fc (k_set_held (a_k (s_a s)) []) [] cap DirEnd r2 Ek) as (_ & _ & F). apply F. discriminate.
 Qed.
 
 (* the stability layer changes nothing else: an accepted step is the step of C10Api *)
@@ -131,13 +266,13 @@ Lemma sstep_astep v kv P X (s : sstate) op :
   (forall r, ao_ret (astep P X (s_a s) op) = Some r -> s_a (so_s (sstep v kv P X s op)) = ao_a (astep P X (s_a s) op)).
 Proof.
   destruct op as [n cap dir fc|n cap fc|cap fc|cap ck fc]; cbn [C10Stab.sstep C10Api.astep].
-  - unfold s_call_gen. cbv zeta. destruct (check_refuses v s); [discriminate|]. intros _.
+  - unfold s_call_gen. cbv zeta. destruct (check_refuses v s || init_refuses_call s); [discriminate|]. intros _.
     destruct (ao_ret (a_call CS cs_begin compress_chunk P fc X (s_a s) n cap dir)) eqn:Er; cbn [so_o so_s s_a]; split; auto; congruence.
-  - unfold s_call_gen. cbv zeta. destruct (check_refuses v s); [discriminate|]. intros _.
+  - unfold s_call_gen. cbv zeta. destruct (check_refuses v s || init_refuses_call s); [discriminate|]. intros _.
     destruct (ao_ret (a_stream CS cs_begin compress_chunk P fc X (s_a s) n cap)) eqn:Er; cbn [so_o so_s s_a]; split; auto; congruence.
-  - unfold s_flushStream. cbv zeta. intros _.
+  - unfold s_flushStream. cbv zeta. destruct (init_refuses_wrapper s); [discriminate|]. intros _.
     destruct (ao_ret (a_flushStream CS cs_begin compress_chunk P fc X (s_a s) cap)) eqn:Er; cbn [so_o so_s s_a]; split; auto; congruence.
-  - unfold s_endStream. cbv zeta. intros _.
+  - unfold s_endStream. cbv zeta. destruct (init_refuses_wrapper s); [discriminate|]. intros _.
     destruct (ao_ret (a_endStream CS cs_begin compress_chunk P fc X (s_a s) cap ck)) eqn:Er; cbn [so_o so_s s_a]; split; auto; congruence.
 Qed.
 
@@ -150,8 +285,9 @@ Proof.
   - cbn in Hrun. inversion Hrun; subst. split; [reflexivity|exact HS].
   - cbn [C10Stab.srun] in Hrun. inversion Hok as [|op' t' Hop Ht]; subst.
     assert (Hnr : so_refused (sstep CheckNow KeepNow P X s op) = false).
-    { destruct op as [n cap dir fc|n cap fc|cap fc|cap ck fc]; cbn [C10Stab.sstep]; unfold s_call_gen, s_flushStream, s_endStream; cbv zeta;
-        try (unfold SOK in HS; rewrite HS); repeat match goal with |- context [match ?x with Some _ => _ | None => _ end] => destruct x end; reflexivity. }
+    { destruct (SOK_parts s HS) as (Q1 & Q2 & Q3).
+      destruct op as [n cap dir fc|n cap fc|cap fc|cap ck fc]; cbn [C10Stab.sstep]; unfold s_call_gen, s_flushStream, s_endStream; cbv zeta;
+        rewrite ?Q1, ?Q2, ?Q3; cbn [orb]; repeat match goal with |- context [match ?x with Some _ => _ | None => _ end] => destruct x end; reflexivity. }
     rewrite Hnr in Hrun.
     destruct (ao_ret (so_o (sstep CheckNow KeepNow P X s op))) as [r|] eqn:Er; [|discriminate].
     pose proof (SOK_step P X s em dones cs0 chunks op r A Hop Hnr Er) as HS1.
